@@ -3,7 +3,7 @@ CONSTANTS
  Family = "dyadic"
  KStep = 4
  WTop = {2147483647}
- ExportStep = 64
+ ExportStep = 128
 INIT Init
 NEXT Next
 CHECK_DEADLOCK FALSE
